@@ -60,6 +60,14 @@ def flag(rng, b):
     return bool(b) if u < 0.7 else (np.bool_(b) if u < 0.9 else int(bool(b)))
 
 
+def flagify(rng, s):
+    """draw the type of every boolean option of a surface dictionary (see `flag`); the truth values are kept"""
+    for k, v in list(s.items()):
+        if isinstance(v, (bool, np.bool_)):
+            s[k] = flag(rng, v)
+    return s
+
+
 def base_surface(rng, nx, ny, symmetry, name="wing", right=False, fem="tube", **kw):
     mesh = rand_mesh(rng, nx, ny, symmetry, right=right, **kw)
     s = {
@@ -72,7 +80,7 @@ def base_surface(rng, nx, ny, symmetry, name="wing", right=False, fem="tube", **
         "fem_origin": float(rng.choice([rng.uniform(0.0, 1.0), rng.uniform(0.2, 0.6), 0.0, 1.0], p=[0.4, 0.4, 0.1, 0.1])), "wing_weight_ratio": float(rng.uniform(1.0, 2.5)),
         "struct_weight_relief": False, "distributed_fuel_weight": False, "exact_failure_constraint": False,
     }
-    return s
+    return flagify(rng, s)
 
 
 def sizes(tier, kind="small"):
